@@ -398,7 +398,9 @@ def handleLine (ds : DState) (line : String) : DState × Json :=
         let r := newController o 0 ic.ctl
         let diffs := (if r.val.isSome == ic.obs.ok then [] else ["init:ok"]) ++ (if r.j == ic.obs.j then [] else ["init:journal"])
         let detail := if diffs.isEmpty then [] else [("model", Json.mkObj [("ok", toJson r.val.isSome), ("j", toJson r.j)])]
-        ({ ctl := ic.ctl, st := r.val, armed := [] }, Json.mkObj ([("diffs", toJson diffs), ("mon", toJson ([] : List String)), ("branches", toJson ([] : List String))] ++ detail))
+        -- a restart whose construction fails (a cloud group has vanished, say) leaves the harness with the controller it
+        -- had: the attempt is compared, the running controller's state is kept
+        (if !ic.obs.ok && r.val.isNone && ds.st.isSome then ds else { ctl := ic.ctl, st := r.val, armed := [] }, Json.mkObj ([("diffs", toJson diffs), ("mon", toJson ([] : List String)), ("branches", toJson ([] : List String))] ++ detail))
     | .ok "begin" => ({}, Json.mkObj [("skip", toJson true)])
     | .ok "abandon" => ({}, Json.mkObj [("skip", toJson true)])
     | .ok "shift" =>
